@@ -445,8 +445,8 @@ pub fn run(ctx: &Ctx) {
     ctx.set_rule("generated: structure in {Bloom, Quotient, Cuckoo, HashSet, CMS, HLL} x configuration x hasher family x streams A, B, C over one colliding universe with generated overlap (as generated, equal, nested, empty, near capacity). Oracle on a successful merge: B unchanged; A∪B observationally equal (query/query_point over universe + fresh keys, len, is_empty, count, registers, result of one further insert/add on clones) to a fresh structure fed A then B (cuckoo: class-multiset model with per-class copy counts, plus the sequential reference whenever it accepted everything); commutativity, associativity (Bloom, Quotient, HashSet, CMS, HLL); idempotence (Bloom, Quotient, HashSet, HLL). A failed union is checked against C12's unchanged-state oracle and, for the quotient filter, must be justified by the class count. Non-trivial: both streams non-empty, merge succeeded, and for quotient the other operand has a shifted run or wraps (Ident) / for cuckoo the other operand used an alternate bucket (drew RNG words or holds > bucketsize copies of one key). Distinct = hash of the case.");
     ctx.run_regressions(&[&Filters, &Sketches]);
     let t = ctx.tier;
-    ctx.run_random(&Filters, t.pick(12_000, 200_000), move || fstrategy(t));
-    ctx.run_random(&Sketches, t.pick(6_000, 100_000), move || sstrategy(t));
+    ctx.run_random(&Filters, t.pick(300_000, 4_000_000), move || fstrategy(t));
+    ctx.run_random(&Sketches, t.pick(150_000, 2_000_000), move || sstrategy(t));
     ctx.require_class("filters", "both_nonempty", 0.3);
     ctx.require_class("filters", "union_failed", 0.05);
     ctx.require_class("filters", "other_uses_alternate_bucket", 0.02);
